@@ -13,6 +13,7 @@
 #if !defined(VITA_RANDOM_H)
 #define      VITA_RANDOM_H
 
+#include <cmath>
 #include <cstdlib>
 #include <random>
 
@@ -105,11 +106,16 @@ between(T min, T sup)
 {
   Expects(min < sup);
 
-  std::uniform_real_distribution<T> d(min, sup);
+  // `std::uniform_real_distribution` requires `sup - min` to be finite: an
+  // interval wider than the largest finite value is sampled at half scale.
+  const bool wide(!std::isfinite(sup - min));
+
+  std::uniform_real_distribution<T> d(wide ? min / 2 : min,
+                                      wide ? sup / 2 : sup);
 #if defined(VITA_VERIF)
-  return verif::log_draw<T>('r', min, sup, d(engine));
+  return verif::log_draw<T>('r', min, sup, wide ? 2 * d(engine) : d(engine));
 #endif
-  return d(engine);
+  return wide ? 2 * d(engine) : d(engine);
 }
 
 ///
